@@ -344,7 +344,7 @@ program counters and executes the instruction at the thread's pc. -/
 hand-written `tstep`, at every pc, for every factory kind, on every state — so every theorem above, stated
 about `tstep` / `step` / `Reachable`, is a theorem about what the source says now.  An edit of a translated
 method makes the translation fail (`Untranslatable`) or makes this theorem (or the `code_*` layout lemmas it
-uses) fail to check. -/
+uses internally) fail to check. -/
 theorem program_sim (kd : Kind) (res : Key → Res) (t : Tid) (g : Glob) (th : Thread) :
     IR.stepIR Gen.offsetPrograms kd res t g th = tstep kd res t g th ∧
     IR.stepIR Gen.strPrograms kd res t g th = tstep kd res t g th :=
